@@ -69,7 +69,7 @@ def build_constant(constant) -> Callable:
         return constant
 
     decorated.__name__ = str(constant)
-    decorated.unique_key = str(constant)  # type: ignore[attr-defined]
+    decorated.unique_key = repr(constant)  # type: ignore[attr-defined]
     return decorated
 
 
